@@ -81,6 +81,18 @@ func init() {
 		m.freezeWalk(a[0], make(map[interface{}]bool))
 		return nil
 	})
+	vf("vfFreezeStop", func(m *Machine, fr *frame, a []value) value {
+		// objects the freeze walk must not enter (user-supplied state behind operators)
+		if m.freezeStop == nil {
+			m.freezeStop = make(map[interface{}]bool)
+		}
+		if it, ok := a[0].(iface); ok {
+			if p, ok := it.v.(*value); ok && p != nil {
+				m.freezeStop[p] = true
+			}
+		}
+		return nil
+	})
 	vf("vfUnfreeze", func(m *Machine, fr *frame, a []value) value {
 		m.frozen, m.frozenMaps = nil, nil
 		return nil
@@ -378,7 +390,7 @@ func (m *Machine) indexString(s, sub []value) value {
 func (m *Machine) freezeWalk(v value, seen map[interface{}]bool) {
 	switch x := v.(type) {
 	case *value:
-		if x == nil || seen[x] {
+		if x == nil || seen[x] || m.freezeStop[x] {
 			return
 		}
 		seen[x] = true
